@@ -3,6 +3,14 @@ mod message;
 mod protocol;
 mod varint;
 
+/// Verification hooks (cargo feature `verif-hooks`, off by default): re-exports of
+/// private wire items for external harnesses. Adds no logic.
+#[cfg(feature = "verif-hooks")]
+pub mod verif {
+    pub use super::frame::{Control, Frame, FrameData, StreamId, StreamKind, Version};
+    pub use super::varint::{payload, BoundsExceeded, VarInt};
+}
+
 pub use frame::StreamId;
 pub use message::{AddressType, MessageType};
 pub use protocol::{Control, Wire, WireReader, WireSession, WireWriter};
